@@ -9,7 +9,7 @@ import itertools
 import random
 
 from . import gen
-from .pairing import World, validate_streams
+from .pairing import UNDECODED_RFA as UNDECODED_RFA_NAME, World, validate_streams, describe
 from .tlc import run_tlc
 from .c04 import replay  # noqa
 
@@ -116,6 +116,42 @@ def run(ctx):
         g = gen.ProgGen(w, rnd, ntids=2, noise=0.05)
         progs = [[e for _ in range(rnd.randrange(1, 3)) for e in g.composite(t)] for t in (1, 2)]
         cases.append(('rnd%d' % i, w, gen.interleave(rnd, progs)))
+    # a thread filter SELECTS traces, it does not change them: composites of the filtered thread read through the public
+    # pipeline (also under a table that leaves some nested record kinds unnamed) equal the direct decoding
+    from .pipeline import traces_via_api, traces_direct
+    from .pairing import default_codes
+    nested_names = ['RealFaultAddressInternal', 'RealFaultAddressExternal', 'RealFaultAddressSharedCache', UNDECODED_RFA_NAME,
+                    'PERF_THD_Data', 'PERF_STK_UHdr', 'PERF_STK_UData', 'DYLD_uuid_map_a', 'DYLD_uuid_shared_cache_a', 'VFS_LOOKUP']
+    napi = 0
+    for i in range(40 if ctx.quick else 600):
+        w = World(rnd, big_tids=False)
+        g = gen.ProgGen(w, rnd, ntids=2, noise=0.05)
+        progs = [[e for _ in range(rnd.randrange(1, 4)) for e in g.composite(1)], g.program(2, 2)]
+        stream = gen.interleave(rnd, progs)[:60]
+        table = dict(default_codes())
+        drop = rnd.sample(nested_names, rnd.choice([0, 1, 1, 2]))
+        if i % 2 == 0:
+            # a fault whose FIRST nested real-fault record is of a kind the table leaves unnamed, a named one after it
+            kinds_ = [0, 1, 2]
+            k0 = kinds_.pop(rnd.randrange(3))
+            drop = [World.RFA_NAMES[k0]]
+            stream = [w.vmf(1, 1), w.rfa(1, 21, rnd.randrange(1, 8), kind=k0), w.rfa(1, 22, rnd.randrange(1, 8), kind=rnd.choice(kinds_)),
+                      w.vmf(2, 1, 0, 2)] + stream
+        for nm in drop:
+            for eid in [k for k, v in table.items() if v == nm]:
+                del table[eid]
+        want = [x for x in traces_direct(w, stream, table) if x[1] > 0 and stream[x[1] - 1].abs['tid'] == 1]
+        try:
+            got, _d = traces_via_api(w, stream, table=table, tid=1)
+        except Exception as ex:
+            got = [('raised', repr(ex), '')]
+        napi += 1
+        if got != want:
+            d_ = next((k for k in range(max(len(got), len(want))) if k >= len(got) or k >= len(want) or got[k] != want[k]), 0)
+            ctx.violation('C20/thread-filter-changes-trace', 'under a thread filter trace %d reads %s, decoded directly %s'
+                          % (d_, got[d_] if d_ < len(got) else None, want[d_] if d_ < len(want) else None),
+                          {'kind': 'code->spec', 'stream': describe(w, stream)})
+    ctx.extra['composites_through_thread_filter'] = napi
     validate_streams(ctx, cases, 'full', 'c20val')
     ctx.sample({'case': cases[40][0], 'events': [dict(a.abs) for a in cases[40][2]]})
     ctx.extra['code_to_spec'] = {'windows': len(cases)}
